@@ -1,11 +1,223 @@
-// Package c01 is the correspondence/oracle harness for property C01.
+// Package c01: PDF text survives every physical file layout.
 package c01
 
-import "verifharness/hx"
+import (
+	"fmt"
+	"os"
+	"path/filepath"
+	"strings"
+
+	"github.com/tsawler/tabula"
+	"github.com/tsawler/tabula/core"
+	"github.com/tsawler/tabula/reader"
+
+	"verifharness/hx"
+	"verifharness/writers"
+)
 
 func init() { hx.Register("C01", Run, Replay) }
 
-// Run is not built yet for this property.
-func Run(c *hx.Ctx) { c.Note("C01: harness not built") }
+type kase struct {
+	Doc    writers.LDoc   `json:"doc"`
+	Layout writers.Layout `json:"layout"`
+}
 
-func Replay(c *hx.Ctx, kase map[string]interface{}) {}
+var latinWords = []string{"alpha", "Beta", "gamma(1)", "d\\e", "x)y(z", "café", "naïve", "A.B,C", "100%", "q-r_s", "Ångström", "end."}
+var uniWords = []string{"日本語", "αβγ", "Привет", "naïve", "–dash—", "中文", "€100", "¿qué?", "ﬁn", "שלום"}
+
+func genDoc(r *hx.Rng, tag string) writers.LDoc {
+	var d writers.LDoc
+	np := r.Range(1, 6)
+	for p := 0; p < np; p++ {
+		var pg writers.LPage
+		nl := r.Range(1, 5)
+		for l := 0; l < nl; l++ {
+			f := r.Intn(2)
+			var w []string
+			for k := r.Range(1, 3); k > 0; k-- {
+				if f == 0 {
+					w = append(w, hx.Pick(r, latinWords))
+				} else {
+					w = append(w, hx.Pick(r, uniWords))
+				}
+			}
+			// unique token per line so order and page membership are decidable
+			pg.Lines = append(pg.Lines, writers.LLine{Font: f, Text: fmt.Sprintf("%s p%dl%d %s", tag, p+1, l+1, strings.Join(w, " "))})
+		}
+		d.Pages = append(d.Pages, pg)
+	}
+	return d
+}
+
+func genLayout(r *hx.Rng) writers.Layout {
+	return writers.Layout{
+		EOL:        hx.Pick(r, []string{"\n", "\n", "\r\n", "\r"}),
+		XrefStream: r.Bool(),
+		ObjStm:     r.Chance(1, 3),
+		LengthMode: r.Intn(3),
+		Split:      r.Range(1, 4),
+		SplitWS:    r.Bool(),
+		Depth:      r.Intn(4),
+		Revisions:  r.Intn(4),
+		Shuffle:    r.Bool(),
+		Filters:    r.Intn(4),
+		BigPad:     hx.Pick(r, []int{0, 0, 0, 6000, 70000}),
+		ParmsShape: r.Intn(2),
+		Seed:       r.U64(),
+	}
+}
+
+func boxStr(b []float64, err error) string {
+	if err != nil || len(b) != 4 {
+		return "-"
+	}
+	return fmt.Sprintf("%g.%g.%g.%g", b[0], b[1], b[2], b[3])
+}
+
+func resVariant(res core.Dict, err error, rd *reader.Reader) string {
+	if err != nil || res == nil {
+		return "-"
+	}
+	fonts, _ := rd.Resolve(res.Get("Font"))
+	fd, ok := fonts.(core.Dict)
+	if !ok {
+		return "-"
+	}
+	f1, _ := rd.Resolve(fd.Get("F1"))
+	d, ok := f1.(core.Dict)
+	if !ok {
+		return "-"
+	}
+	if n, ok := d.Get("Subtype").(core.Name); ok && string(n) == "Type1" {
+		return "A"
+	}
+	return "B"
+}
+
+func runCase(c *hx.Ctx, k kase, tag string) {
+	rend := writers.RenderPDF(k.Doc, k.Layout)
+	path := filepath.Join(c.OutDir, "c01-"+tag+".pdf")
+	os.WriteFile(path, rend.Data, 0o644)
+	defer os.Remove(path)
+	var leafOut []string
+	var pageTexts []string
+	var count int
+	var openErr, countErr error
+	pageErrs := map[int]string{}
+	if !c.Guard("C01", k, 20, func() {
+		rd, err := reader.Open(path)
+		if err != nil {
+			openErr = err
+			return
+		}
+		defer rd.Close()
+		count, countErr = rd.PageCount()
+		for i := 0; i < len(k.Doc.Pages); i++ {
+			pg, err := rd.GetPage(i)
+			if err != nil {
+				leafOut = append(leafOut, "err")
+				pageTexts = append(pageTexts, "")
+				pageErrs[i] = err.Error()
+				continue
+			}
+			res, rerr := pg.Resources()
+			leafOut = append(leafOut, fmt.Sprintf("%s|%s|%d", boxStr(pg.MediaBox()), resVariant(res, rerr, rd), pg.Rotate()))
+			frags, err := rd.ExtractTextFragments(pg)
+			if err != nil {
+				pageErrs[i] = err.Error()
+			}
+			var sb strings.Builder
+			for _, f := range frags {
+				sb.WriteString(f.Text)
+				sb.WriteString("\n")
+			}
+			pageTexts = append(pageTexts, sb.String())
+		}
+	}) {
+		return
+	}
+	if !c.Check("C01/open", openErr == nil, k, func() string { return fmt.Sprint(openErr) }) {
+		c.Case(fmt.Sprint(k), false)
+		return
+	}
+	c.Op("c01.ptree "+writers.TreeSexpr(rend.Tree), fmt.Sprintf("n=%d %s", count, strings.Join(leafOut, ";")))
+	c.Check("C01/page-count", countErr == nil && count == len(k.Doc.Pages), k, func() string {
+		return fmt.Sprintf("PageCount=%d (%v), document has %d page leaves", count, countErr, len(k.Doc.Pages))
+	})
+	for i, pg := range k.Doc.Pages {
+		leaf := rend.Leaves[i]
+		want := fmt.Sprintf("%d.%d.%d.%d|%s|%d", leaf.EffMB[0], leaf.EffMB[1], leaf.EffMB[2], leaf.EffMB[3], leaf.EffRes, leaf.EffRot)
+		got := ""
+		if i < len(leafOut) {
+			got = leafOut[i]
+		}
+		c.Check("C01/inherited-attributes", got == want, k, func() string {
+			return fmt.Sprintf("page %d: MediaBox|Resources|Rotate = %s, nearest definers give %s (%s)", i+1, got, want, pageErrs[i])
+		})
+		var exp strings.Builder
+		for _, l := range pg.Lines {
+			exp.WriteString(l.Text)
+			exp.WriteString("\n")
+		}
+		gotText := ""
+		if i < len(pageTexts) {
+			gotText = pageTexts[i]
+		}
+		c.Check("C01/page-text", gotText == exp.String(), k, func() string {
+			return fmt.Sprintf("page %d fragments %q want %q (%s)", i+1, gotText, exp.String(), pageErrs[i])
+		})
+	}
+	// public API: all lines, page by page, in content order
+	if c.Rng.Chance(1, 3) || tag == "replay" {
+		var frs []string
+		var apiErr error
+		var n int
+		if c.Guard("C01", k, 20, func() {
+			ext := tabula.Open(path)
+			n, _ = ext.PageCount()
+			fr, _, err := ext.Fragments()
+			apiErr = err
+			for _, f := range fr {
+				frs = append(frs, f.Text)
+			}
+		}) {
+			var want []string
+			for _, pg := range k.Doc.Pages {
+				for _, l := range pg.Lines {
+					want = append(want, l.Text)
+				}
+			}
+			c.Check("C01/api-fragments", apiErr == nil && strings.Join(frs, "\n") == strings.Join(want, "\n"), k, func() string {
+				return fmt.Sprintf("tabula.Open().Fragments() = %q (%v) want %q", frs, apiErr, want)
+			})
+			c.Check("C01/api-page-count", n == len(k.Doc.Pages), k, func() string {
+				return fmt.Sprintf("tabula.Open().PageCount() = %d want %d", n, len(k.Doc.Pages))
+			})
+		}
+	}
+	c.Case(fmt.Sprint(k), true)
+}
+
+func Run(c *hx.Ctx) {
+	c.Rep.Rule = "random logical documents (1-6 pages x 1-5 lines, Type1/WinAnsi and Type0/ToUnicode fonts, unique token per line) rendered by the harness PDF writer under random combinations of 12 physical-layout dimensions (xref kind, object streams, filter chains with predictors, /Length direct/indirect before/after, content split 1-4 with/without trailing white space, page-tree depth 0-3 with inheritable keys at random levels incl. decoy values overridden lower down, 0-3 incremental revisions with stale content, shuffled numbering/order, EOL, entry terminators, big streams); every case is non-trivial; distinct by (document, layout)"
+	ndocs := c.N(60, 400)
+	per := c.N(6, 30)
+	for d := 0; d < ndocs; d++ {
+		r := c.Rng.Fork(uint64(d))
+		doc := genDoc(r, fmt.Sprintf("D%d", d))
+		for l := 0; l < per; l++ {
+			lay := genLayout(r)
+			runCase(c, kase{Doc: doc, Layout: lay}, "r")
+			c.Count(fmt.Sprintf("depth=%d", lay.Depth))
+			c.Count(fmt.Sprintf("filters=%d", lay.Filters))
+			c.Count(fmt.Sprintf("revisions=%d", lay.Revisions))
+			c.Count(fmt.Sprintf("lengthmode=%d", lay.LengthMode))
+		}
+	}
+}
+
+func Replay(c *hx.Ctx, m map[string]interface{}) {
+	var k kase
+	hx.Remarshal(m, &k)
+	runCase(c, k, "replay")
+}
